@@ -386,7 +386,10 @@ def check_config(ctx, cfg):
 
         def cb(st, payload, case=case, err=err):
             got = payload.split(":")[0] if payload.startswith(("SpaParseError", "KeyError")) else payload
-            if st != "err" or got != err:
+            # the sub-cause after ':' comes from the message text; an unrecognised wording (':other') still matches
+            # any sub-cause of the same exception class
+            same = got == err or (err.endswith(":other") and got.split(":")[0] == err.split(":")[0])
+            if st != "err" or not same:
                 ctx.diff(case, err, f"{st} {payload[:80]}", op="rejection")
         if not getattr(ctx, "no_driver", False):
             args, _ = lean_args(cfg, "direct", None, [np.zeros(cfg["din"])])
